@@ -58,6 +58,7 @@ Proof.
   intros Hc. unfold maybe_replace. destruct (o_btype o) eqn:Eb; try discriminate;
     destruct (o_replace o); try discriminate;
     destruct (o_regex o) as [x|] eqn:Ex; try discriminate;
+    destruct (o_compress o); try discriminate;
     destruct x as [|r]; try discriminate;
     specialize (Hc Ex); congruence.
 Qed.
